@@ -779,6 +779,8 @@ def gen_src(unit_name):
 
 
 GEN_SRC = {n: gen_src(n) for n in ("SrcKmpLps", "SrcShiftAndMasks", "SrcHorspoolNew", "SrcFenwick", "SrcBitEnc", "SrcBwt", "SrcPrescan")}
+# (genbits) bit-packed containers: SmallInts (C18, C03), RankSelect and WaveletMatrix (C17)
+GEN_SRC.update({n: gen_src(n) for n in ("SrcSmallInts",)})
 
 
 # ------------------------------------------------------------------------------------------ theorem modules built here
@@ -832,6 +834,9 @@ EXTRACTORS = {
     "C08": [GEN_SRC["SrcKmpLps"], GEN_SRC["SrcShiftAndMasks"], GEN_SRC["SrcHorspoolNew"]],
     "C18": [GEN_SRC["SrcFenwick"], GEN_SRC["SrcBitEnc"]],
 }
+# (genbits) additional units, appended so that concurrent edits of the table above merge trivially
+EXTRACTORS["C18"] = EXTRACTORS["C18"] + [GEN_SRC["SrcSmallInts"]]
+EXTRACTORS["C03"] = EXTRACTORS["C03"] + [GEN_SRC["SrcSmallInts"]]
 
 
 def main():
